@@ -54,8 +54,11 @@ Shapes ==
     S12 |-> [fields |-> <<[n |-> "X", v |-> VI(41)]>> \o [i \in 1..128 |-> [n |-> "Fill", v |-> VI(i)]] \o <<[n |-> "Y", v |-> VS(<<52>>)], [n |-> "Base", emb |-> "Base"]>>, methods |-> {}],
     \* a field whose name is not ASCII (the harness spells "Uelan" as E-acute l a n; maps have the key e-acute l a n, "uelan")
     S13 |-> [fields |-> <<[n |-> "Uelan", v |-> VS(<<101>>)], [n |-> "X", v |-> VI(17)]>>, methods |-> {}],
+    \* an unnamed struct type (struct{ S6; Q int }) that embeds S6 by value: S6's fields and methods are promoted
+    S14 |-> [fields |-> <<[n |-> "S6", emb |-> "S6"], [n |-> "Q", v |-> VI(5)]>>,
+             methods |-> {[n |-> "Name", v |-> VS(<<109>>), ptr |-> FALSE], [n |-> "PName", v |-> VS(<<112>>), ptr |-> TRUE], [n |-> "AName", v |-> VS(<<97>>), ptr |-> TRUE]}],
     S9 |-> [fields |-> <<[n |-> "X", v |-> VI(91)]>>, methods |-> {[n |-> "Cust", v |-> [t |-> "embedded", sh |-> "Base"], ptr |-> TRUE]}] ]
-ShapeNames == {"S1", "S2", "S3", "S4", "S5", "S6", "S7", "S10", "S11", "S12", "S13"}
+ShapeNames == {"S1", "S2", "S3", "S4", "S5", "S6", "S7", "S10", "S11", "S12", "S13", "S14"}
 MapKinds == {"any", "mss", "msi", "mii"}        \* mii: map[interface{}]interface{}
 \* objects: a struct value, a pointer to it, or a map of one of three Go map types
 Objects == {[k |-> "struct", sh |-> sn, ptr |-> p, embnil |-> FALSE] : sn \in ShapeNames, p \in BOOLEAN}
